@@ -20,8 +20,13 @@ cols = st.one_of(st.sampled_from(['A', 'Z', 'AA', 'AZ', 'ZZ', 'AAA', 'XFD', 'XFE
 rows = st.one_of(st.sampled_from([1, 9, 10, 1048576, 1048577]), st.integers(1, 3000))
 
 
+POOL = ['A1', 'B2', 'C3', 'D7', 'b2', '$B$2', 'c$3', '$D7', 'C7', 'A3']     # a few labels that come back within one formula (the same cell again, a corner of an earlier range)
+
+
 @st.composite
 def label(draw):
+    if draw(st.integers(0, 3)) == 0:
+        return draw(st.sampled_from(POOL))
     return ('$' if draw(st.booleans()) else '') + draw(cols) + ('$' if draw(st.booleans()) else '') + str(draw(rows))
 
 
@@ -67,7 +72,9 @@ def case_s(draw):
     t = draw(trees())
     if not any(n[0] in ('cell', 'range') for n in gf.walk(t)):
         t = ['call', 'REC', [t, draw(cell_leaf), draw(range_leaf)]]
-    return {'tree': t, 'listeners': draw(listeners)}
+    # a listener that leaves during the first delivery it sees (subscribed with once, or unsubscribing itself), placed ahead of the others of its kind
+    transient = dict((k, draw(st.sampled_from(['none', 'none', 'none', 'once', 'selfoff']))) for k in KINDS)
+    return {'tree': t, 'listeners': draw(listeners), 'transient': transient}
 
 
 VARS = {'v_a': 41, 'v_b': 'bee', 'v_list': [3, 4], 'v_zero': 0, 'v_err': Err('#NUM!')}
@@ -275,6 +282,23 @@ def check(case):
                     continue
                 setter(None if t is None else ('fn:' + name if t == 'tag' else CONSTS[t]))
         return {'callCellValue': cell_l, 'callRangeValue': range_l, 'callVariable': var_l, 'callFunction': func_l}[kind]
+    transient_calls = dict((k, 0) for k in KINDS)
+    holder = {}
+    for kind in KINDS:
+        how = case.get('transient', {}).get(kind, 'none')
+        if how == 'once':
+            def cb(*a, kind=kind):
+                if not state['nested']:
+                    transient_calls[kind] += 1
+            P.once(kind, cb)
+        elif how == 'selfoff':
+            def cb2(*a, kind=kind):
+                if state['nested']:
+                    return
+                transient_calls[kind] += 1
+                P.off(kind, holder[kind])
+            holder[kind] = cb2
+            P.on(kind, cb2)
     for kind in KINDS:
         for idx, tpl in enumerate(L[kind]):
             P.on(kind, mk(kind, idx, tpl))
@@ -319,6 +343,10 @@ def check(case):
 
 
 def classes(case):
+    return sorted(set(_classes(case)) | set('transient:' + v for v in case.get('transient', {}).values() if v != 'none'))
+
+
+def _classes(case):
     t, L = case['tree'], case['listeners']
     out = set()
     for n in gf.walk(t):
@@ -379,9 +407,9 @@ def key(case):
 LAWS = [
     Law('events', check, strategy=case_s(), classes=classes, key=key, quick=5000, thorough=200000, shards=(16, 16),
         required=('range-reversed', 'range-anti-diagonal', 'range-absolute', 'cell-lower', 'cell-absolute', 'beyond-xfd-or-1048576', 'multi-listener',
-                  'falsy-final:callCellValue', 'falsy-final:callRangeValue', 'falsy-final:callVariable', 'falsy-final:callFunction', 'none-after-value', 'events>=3-of-2-kinds', 'call-raises-error', 'range-one-line-mixed-markers', 'nested-evaluation-in-listener'),
+                  'falsy-final:callCellValue', 'falsy-final:callRangeValue', 'falsy-final:callVariable', 'falsy-final:callFunction', 'none-after-value', 'events>=3-of-2-kinds', 'call-raises-error', 'range-one-line-mixed-markers', 'nested-evaluation-in-listener', 'transient:once', 'transient:selfoff'),
         nontrivial=lambda c: bool(set(classes(c)) & set(['events>=3-of-2-kinds', 'range-reversed'])) or any(x.startswith('falsy-final') for x in classes(c)),
-        rule='generated tree of cell / range / variable references, recording and built-in calls (incl. a host function and an aggregate that report an error by raising it), array literals and = comparisons; 0-3 listeners per event kind, each handing 0-3 values (None, a tag derived from the reference, or a constant incl. 0, FALSE, "", a list) to the setter, or running a complete evaluation on the same parser in between: '
+        rule='generated tree of cell / range / variable references, recording and built-in calls (incl. a host function and an aggregate that report an error by raising it), array literals and = comparisons; 0-3 listeners per event kind, each handing 0-3 values (None, a tag derived from the reference, or a constant incl. 0, FALSE, "", a list) to the setter, or running a complete evaluation on the same parser in between; per kind optionally one more listener, subscribed first, that leaves during the first delivery it sees (once, or unsubscribing itself): '
              'the listener call log equals the post-order walk (each listener once per event, subscription order) with canonical payloads (upper-cased label, zero-based row/column, markers; normalised range corners whose labels re-parse to their coordinates); '
              'call arguments and the formula value follow the "last non-None value wins, else blank / registered value" rule; non-trivial = at least 3 events of 2 kinds, a range with unordered corners, or a falsy final setter value'),
 ]
